@@ -113,4 +113,22 @@ def pointIndex (w h x0 y0 : Nat) (x y : Int) : Option (Int × Int) :=
 def pointIndexOld (w h x0 y0 : Nat) (x y : Int) : Option (Int × Int) :=
   if x < 0 ∨ x ≥ w ∨ y < 0 ∨ y ≥ h then none else some (x + x0, y + y0)
 
+/-! ### `TimedQueue.expiry`: the time the last queued sound ends, used by `Sound.emit_synch` (Tandy / PCjr voices) -/
+
+/-- a queue is the list of expiry times of its entries; a looping sound (SOUND f,d with d < 1/44) has none.
+    `self._deque[-1][1] or now()`, and `now()` for an empty queue: always a time, so that `max` and the subtraction in
+    `emit_synch` are between times -/
+def queueExpiry (queue : List (Option Int)) (now : Int) : Except Raised Int :=
+  match queue.getLast? with
+  | some (some t) => .ok t
+  | some none => .ok now
+  | none => .ok now
+
+/-- without the fallback for a looping last entry the caller gets `None` and `max(None, datetime)` is a TypeError -/
+def queueExpiryNoFallback (queue : List (Option Int)) (now : Int) : Except Raised Int :=
+  match queue.getLast? with
+  | some (some t) => .ok t
+  | some none => .error (.host 4)
+  | none => .ok now
+
 end PcbV.Funnel
